@@ -10,6 +10,7 @@ LEVEL_TEXT = ("Ground-truth monitoring: the query generator records, for every p
               "ON predicates are not flow). The leaves of lineage() per output column must equal that set, for the query as "
               "written, with every derived table hoisted into a CTE, with those CTEs supplied through sources=, with table "
               "aliases renamed, and through both lineage(column, ...) and lineage(None, ...) (shared cache).")
+LEVEL_TEXT += (' NATURAL JOINs with the merged column used un-qualified are part of the workload.')
 LEVEL_NOTE = "the expected sets come from the generator's own derivation, never from sqlglot; leaves are read as (leaf.source.name, column part of leaf.name)"
 TECHNIQUE = "runtime monitoring: generator-recorded provenance as ground truth for lineage leaves, across equivalent presentations"
 RULE = ("seeded nested queries (derived tables, multiply referenced CTEs, set operations, stars, scalar subqueries, windows) x "
